@@ -12,6 +12,7 @@ Difference table: the three omega solvers of laue rescale g first
 (g_w_n = sin(theta) g/|g|), checked by E3, and are otherwise identical.
 """
 import ast
+from fractions import Fraction
 import copy
 
 from xfabsa import core, numeric as N, siblings as SB
@@ -139,6 +140,10 @@ def evaluate_side(mod, name, tau, fn=None, oracle=None):
         calls.append(key)
         return make_ret(cret, key, tau)
     ev = Evaluator(mod, inline=set(), call_policy=pol, branch_policy=N.skip_checks_policy, sign_policy=oracle)
+    if oracle is not None:
+        # `quantity < small literal`: a two-way question per (quantity, literal), shared by both modules
+        ev.threshold_policy = lambda q, t, node: oracle.band(q, Fraction(t), node)
+        ev.threshold_max = Fraction(1, 100)
     try:
         if fn is None:
             out = ev.call_function(name, args)
@@ -210,7 +215,14 @@ def semantic_compare(ctx, name, tmod, lmod, lfn=None):
     for assume, ((tout, tcalls), (lout, lcalls)) in paths:
         for suffix, ok, msg in compare_outcomes(name, tau, tout, tcalls, lout, lcalls):
             if not ok:
-                case = ", ".join("%s %s 0" % (k[:40], {1: ">", 0: "==", -1: "<"}[v]) for k, v in sorted(assume.items()))
+                def show(k, v):
+                    if k.startswith("band:"):
+                        q_, t_ = k[5:].rsplit(":", 1)
+                        return "%s %s %.3g" % (q_[:50], "<" if v == 1 else ">=", float(Fraction(t_)))
+                    if k.startswith("close("):
+                        return "%s %s" % (k[:50], "holds" if v == 1 else "does not hold")
+                    return "%s %s 0" % (k[:50], {1: ">", 0: "==", -1: "<"}[v])
+                case = ", ".join(show(k, v) for k, v in sorted(assume.items()))
                 bad.append((suffix, False, "on the input class {%s}: %s" % (case, msg)))
     if bad:
         seen, out = set(), []
@@ -358,6 +370,8 @@ def compare_hkl(name, tmod, lmod):
 
 
 def run(ctx):
+    from xfabsa import numeric as _NA
+    _NA.alias_rule(ctx, 'C14', ['xfab/tools.py', 'xfab/laue.py'])
     ctx.rule("names", "both modules define the same 41 top-level functions")
     ctx.rule("identical", "normalised trees identical (same operations in the same order)")
     ctx.rule("semantic", "E3: tools(tau^w x) == tau^w' laue(x) with callees opaque at their signature weight")
